@@ -53,6 +53,7 @@ type idpFault struct {
 	status int
 	body   string
 	hang   time.Duration
+	lost   bool // the provider PROCESSES the grant (rotates the refresh token) but its answer never reaches the relying party: the connection is closed instead
 }
 
 type fakeIdp struct {
@@ -252,9 +253,22 @@ func (ip *fakeIdp) token(w http.ResponseWriter, r *http.Request) {
 	defer func() { ip.mu.Lock(); ip.inflight--; ip.mu.Unlock() }()
 	if ip.gate != nil {
 		if flt := ip.gate("token:"+call.Grant, f); flt != nil {
-			call.Status, call.Outcome = flt.status, "fault"
-			writeFault(w, flt)
-			return
+			if flt.lost {
+				// swallow whatever the handler writes, then drop the connection
+				w = &lostWriter{ResponseWriter: w}
+				defer func() {
+					call.Outcome = "lost"
+					if hj, ok := w.(*lostWriter).ResponseWriter.(http.Hijacker); ok {
+						if conn, _, err := hj.Hijack(); err == nil {
+							conn.Close()
+						}
+					}
+				}()
+			} else {
+				call.Status, call.Outcome = flt.status, "fault"
+				writeFault(w, flt)
+				return
+			}
 		}
 	}
 	ip.mu.Lock()
@@ -394,3 +408,18 @@ func brokenTokenResponse(shape int) *idpFault {
 	}
 	return &idpFault{status: 200, body: fmt.Sprintf(`{"access_token":%q,"token_type":{"kind":"Bearer"},"refresh_token":%q,"expires_in":3600}`, at, rt)}
 }
+
+// lostWriter discards the response (the connection is closed by the caller afterwards)
+type lostWriter struct {
+	http.ResponseWriter
+	hdr http.Header
+}
+
+func (l *lostWriter) Header() http.Header {
+	if l.hdr == nil {
+		l.hdr = http.Header{}
+	}
+	return l.hdr
+}
+func (l *lostWriter) Write(b []byte) (int, error) { return len(b), nil }
+func (l *lostWriter) WriteHeader(int)             {}
